@@ -15,7 +15,7 @@ VARIABLES tid, l, bad
 varsT == <<S, tid, l, bad>>
 
 InitT == /\ tid \in 1..N /\ l = 1 /\ bad = ""
-         /\ S = InitState(Traces[tid][1].procs, Traces[tid][1].until)
+         /\ S = InitStateD(Traces[tid][1].procs, Traces[tid][1].until, F(Traces[tid][1], "defuse", FALSE))
 
 \* a result of composing silent steps: [ok, why, S]
 Good(s) == [ok |-> TRUE, why |-> "", S |-> s]
@@ -42,6 +42,8 @@ ValueOK(s, p, v) ==
     [] k[1] = "wait" -> v = <<s.ev[k[2]].v>>
     [] k[1] = "proc" -> v = <<10 * k[2]>>
     [] k[1] = "all" -> v = <<Min2(k[2], k[3]) + 5, Max2(k[2], k[3]) + 5>>
+    [] k[1] = "dall" -> v = IF k[2] <= k[3] THEN <<k[2] + 5, k[2] + 5, k[3] + 5>> ELSE <<k[3] + 5, k[2] + 5, k[2] + 5>>
+    [] k[1] = "dwait" -> v = <<s.ev[k[2]].v, s.ev[k[2]].v>>
     \* a condition exposes exactly the members that have fired by then
     [] k[1] = "nest" -> LET T == Max2(Min2(k[2], k[3]), k[4])  ds == {k[2], k[3], k[4]} IN
          /\ {d + 5 : d \in {d \in ds : d < T}} \subseteq SeqSet(v) /\ SeqSet(v) \subseteq {d + 5 : d \in {d \in ds : d <= T}}
